@@ -1399,6 +1399,30 @@ func stopFacts(f *facts) {
 		})
 	}
 	f.strs["stop_run_order"] = ro
+	f.note["stop_connect_branch"] = "ClientWorker.runSession: what the stop case of the select that waits for the connection does (it must not wait for the attempt in progress)"
+	var cb []string
+	if fd := fn("output/baseoutput/clientworker.go", "runSession", "ClientWorker"); fd != nil {
+		done := false
+		inspect(fd.Body, func(n ast.Node) bool {
+			if sel, ok := n.(*ast.SelectStmt); ok && !done && strings.Contains(src(sel), "connCh") {
+				for _, c := range sel.Body.List {
+					cc := c.(*ast.CommClause)
+					if cc.Comm != nil && strings.Contains(src(cc.Comm), "inputClosed") {
+						for _, st := range cc.Body {
+							t := oneLine(st)
+							if strings.HasPrefix(t, "client.logger.") {
+								continue
+							}
+							cb = append(cb, t)
+						}
+						done = true
+					}
+				}
+			}
+			return true
+		})
+	}
+	f.strs["stop_connect_branch"] = cb
 	const sess = "output/baseoutput/clientsession.go"
 	const work = "output/baseoutput/clientworker.go"
 	f.note["stop_client_selects"] = "per function: 1 if every select statement has a case on inputClosed / a closed-channel check of inputChannel, else 0"
